@@ -78,7 +78,8 @@ def judge_sequence(seq):
     for k, u in enumerate(units):
         kind = u["kind"]
         # ---- parse offsets (10.5.1)
-        if u["prev"] != "ok":
+        if u["prev"] != "ok" and not (u["prev"] == "zero" and k == 0):
+            # zero is the correct value in (only) the first data unit of a sequence
             return False, "unit %d: wrong previous_parse_offset" % k
         nxt = u["next"]
         if kind == "EOS":
